@@ -188,6 +188,19 @@ pub fn answer(req: &Value) -> String {
             Err(_) => "err".into(),
         },
         "sha" => digest_string(a[1].as_str().unwrap()),
+        "rev.obj" => match digest_object(a[1].as_object().unwrap()) {
+            // the creation revision of an object, printed and parsed back
+            Ok(d) => {
+                let r = Revision::new(1, d, None);
+                let s = r.to_string();
+                match parse_rev(&s) {
+                    Ok(r2) => format!("{} -> {}", s, rev_fields(&r2)),
+                    Err(e) => format!("{} -> {}", s, e),
+                }
+            }
+            Err(e) => format!("err {}", msg_prefix(&e.to_string())),
+        },
+        "kv" => kv_run(a[1].as_str().unwrap(), a[2].as_array().unwrap()).join(";"),
         "scan" => {
             // a[1]: pack bytes as hex. Store it under its own digest, reload a DataStorage, dump index
             let bytes = hex::decode(a[1].as_str().unwrap()).unwrap();
@@ -209,6 +222,165 @@ pub fn answer(req: &Value) -> String {
         }
         _ => panic!("unknown op {}", op),
     }
+}
+
+static KV_COUNTER: std::sync::atomic::AtomicUsize = std::sync::atomic::AtomicUsize::new(0);
+
+/// run a sequence of storage operations on a real backend (optionally wrapped)
+pub fn kv_run(backend: &str, ops: &[Value]) -> Vec<String> {
+    let n = KV_COUNTER.fetch_add(1, std::sync::atomic::Ordering::SeqCst);
+    let base = std::env::var("MVERIF_SCRATCH").unwrap_or_else(|_| "/tmp/mverif_scratch".into());
+    let path = format!("{}/kv{}_{}{}", base, std::process::id(), n, if backend.starts_with("sqlite") { ".db" } else { "" });
+    if backend.starts_with("fs") {
+        let _ = std::fs::remove_dir_all(&path);
+    } else {
+        std::fs::create_dir_all(&base).unwrap();
+        let _ = std::fs::remove_file(&path);
+    }
+    let mut ad = crate::sim::open_real(backend, &path);
+    let mut out = vec![];
+    for o in ops {
+        let o = o.as_array().unwrap();
+        let r = catch_unwind(AssertUnwindSafe(|| match o[0].as_str().unwrap() {
+            "w" => match ad.write().unwrap().write_object(o[1].as_str().unwrap(), &hex::decode(o[2].as_str().unwrap()).unwrap()) {
+                Ok(()) => "ok".to_string(),
+                Err(_) => "err".to_string(),
+            },
+            "r" => match ad.read().unwrap().read_object(o[1].as_str().unwrap(), 0, 0) {
+                Ok(d) => hex::encode(d),
+                Err(_) => "err".to_string(),
+            },
+            "rr" => match ad.read().unwrap().read_object(o[1].as_str().unwrap(), o[2].as_u64().unwrap() as usize, o[3].as_u64().unwrap() as usize) {
+                Ok(d) => hex::encode(d),
+                Err(_) => "err".to_string(),
+            },
+            "l" => match ad.read().unwrap().list_objects(o[1].as_str().unwrap()) {
+                Ok(mut v) => {
+                    v.sort();
+                    js(&json!(v))
+                }
+                Err(_) => "err".to_string(),
+            },
+            _ => "bad".to_string(),
+        }));
+        if o[0].as_str().unwrap() == "reopen" {
+            let persistent = backend.starts_with("fs") || (backend.starts_with("sqlite") && !backend.starts_with("sqlitemem"));
+            if persistent {
+                match catch_unwind(AssertUnwindSafe(|| crate::sim::open_real(backend, &path))) {
+                    Ok(a) => {
+                        ad = a;
+                        out.push("ok".to_string());
+                    }
+                    Err(_) => out.push("panic".to_string()),
+                }
+            } else {
+                out.push("ok".to_string());
+            }
+            continue;
+        }
+        out.push(r.unwrap_or_else(|_| "panic".to_string()));
+    }
+    drop(ad);
+    if backend.starts_with("fs") {
+        let _ = std::fs::remove_dir_all(&path);
+    } else {
+        let _ = std::fs::remove_file(&path);
+    }
+    out
+}
+
+/// the write-once key/value contract, evaluated by the harness itself
+pub fn kv_spec(ops: &[Value]) -> Vec<String> {
+    let mut m: std::collections::BTreeMap<String, Vec<u8>> = Default::default();
+    let mut out = vec![];
+    for o in ops {
+        let o = o.as_array().unwrap();
+        out.push(match o[0].as_str().unwrap() {
+            "w" => {
+                m.entry(o[1].as_str().unwrap().to_string()).or_insert_with(|| hex::decode(o[2].as_str().unwrap()).unwrap());
+                "ok".to_string()
+            }
+            "r" => m.get(o[1].as_str().unwrap()).map(hex::encode).unwrap_or("err".into()),
+            "rr" => match m.get(o[1].as_str().unwrap()) {
+                Some(d) => {
+                    let (off, len) = (o[2].as_u64().unwrap() as usize, o[3].as_u64().unwrap() as usize);
+                    hex::encode(&d[off..off + len])
+                }
+                None => "err".into(),
+            },
+            "l" => {
+                let ext = o[1].as_str().unwrap();
+                let v: Vec<String> = m.keys().filter(|k| k.ends_with(ext)).map(|k| k.strip_suffix(ext).unwrap().to_string()).collect();
+                js(&json!(v))
+            }
+            "reopen" => "ok".to_string(),
+            _ => "bad".to_string(),
+        });
+    }
+    out
+}
+
+pub const BACKENDS: [&str; 12] = [
+    "memory", "memory+flate", "memory+brotli", "fs", "fs+flate", "fs+brotli", "sqlite", "sqlite+flate", "sqlite+brotli", "sqlitemem",
+    "sqlitemem+flate", "sqlitemem+brotli",
+];
+
+fn gen_kv_ops(r: &mut Rng, odd_keys: bool) -> Vec<Value> {
+    let mut keys: Vec<String> = vec![];
+    let mut sizes: HashMap<String, usize> = HashMap::new();
+    let mut ops = vec![];
+    let n = 4 + r.below(14);
+    for _ in 0..n {
+        match r.below(10) {
+            0..=3 => {
+                let stem = match r.below(6) {
+                    0 => format!("{}-{}", 1 + r.below(12), hexd(r, 12)),
+                    1 => "ab".to_string(),
+                    2 if odd_keys => format!("{}.flate", hexd(r, 4)),
+                    3 if odd_keys => format!("{}.brotli", hexd(r, 4)),
+                    _ => hexd(r, 8),
+                };
+                let ext = *r.pick(&[".delta", ".pack", ".index", ""]);
+                let k = if r.chance(1, 5) && !keys.is_empty() { r.pick(&keys).clone() } else { format!("{}{}", stem, ext) };
+                let len = match r.below(5) {
+                    0 => 0,
+                    1 => 1,
+                    _ => r.below(300),
+                };
+                let data: Vec<u8> = (0..len).map(|_| (r.next() & 0xff) as u8).collect();
+                if !sizes.contains_key(&k) {
+                    sizes.insert(k.clone(), len);
+                    keys.push(k.clone());
+                }
+                ops.push(json!(["w", k, hex::encode(data)]));
+            }
+            4 | 5 => {
+                let k = if keys.is_empty() || r.chance(1, 6) { "zz-missing.delta".to_string() } else { r.pick(&keys).clone() };
+                ops.push(json!(["r", k]));
+            }
+            6 | 7 => {
+                if !keys.is_empty() {
+                    let k = r.pick(&keys).clone();
+                    let sz = sizes[&k];
+                    if sz > 0 {
+                        let len = 1 + r.below(sz);
+                        let off = r.below(sz - len + 1);
+                        ops.push(json!(["rr", k, off, len]));
+                    }
+                }
+            }
+            8 => ops.push(json!(["l", *r.pick(&[".delta", ".pack", "", ".index", "a"])])),
+            _ => ops.push(json!(["reopen"])),
+        }
+    }
+    ops.push(json!(["l", ".delta"]));
+    ops.push(json!(["l", ""]));
+    ops.push(json!(["reopen"]));
+    ops.push(json!(["l", ".pack"]));
+    for k in keys.iter().take(3) {
+        ops.push(json!(["r", k]));
+    }
+    ops
 }
 
 // ---------------------------------------------------------------- generators
@@ -474,6 +646,25 @@ pub fn gen_requests(channel: &str, r: &mut Rng, count: usize) -> Vec<Value> {
                 }
             }
         }
+        "kv" => {
+            let mut i = 0;
+            while out.len() < count {
+                let ops = gen_kv_ops(r, false);
+                out.push(json!(["kv", BACKENDS[i % BACKENDS.len()], ops]));
+                i += 1;
+            }
+        }
+        "revobj" => {
+            while out.len() < count {
+                let mut o = Map::new();
+                o.insert("k".into(), plain_nested(r, 2));
+                if r.chance(1, 3) {
+                    let hn = 1 + r.below(9);
+                    o.insert("#".into(), Value::from(hexd(r, hn)));
+                }
+                out.push(json!(["rev.obj", o]));
+            }
+        }
         _ => panic!("unknown channel {}", channel),
     }
     out
@@ -511,6 +702,45 @@ pub fn oracle(req: &Value) -> Vec<(String, String)> {
                 }
                 if !x.is_resolved() && !y.is_resolved() && x.index() != y.index() && (x.index() < y.index()) != (c1 == std::cmp::Ordering::Less) {
                     fails.push(("C05".into(), format!("longer history does not win {} {}", x, y)));
+                }
+            }
+        }
+        "tree" => {
+            // the leaf / winner rule recomputed independently after every operation
+            let mut t = RevisionTree::new();
+            for o in a[1].as_array().unwrap() {
+                let o = o.as_array().unwrap();
+                match o[0].as_str().unwrap() {
+                    k @ ("a" | "u") => {
+                        let r = parse_rev(o[1].as_str().unwrap()).unwrap();
+                        let p = o[2].as_str().map(|s| parse_rev(s).unwrap());
+                        let st = o[3].as_bool().unwrap();
+                        if k == "a" { t.add(r, p, st); } else { t.unvalidated_add(r, p, st); }
+                    }
+                    "v" => t.validate(),
+                    "c" => { let _ = catch_unwind(AssertUnwindSafe(|| t.commit())); }
+                    "s" => t.unstage(),
+                    _ => {}
+                }
+                if let Ok((leafs, winner)) = catch_unwind(AssertUnwindSafe(|| {
+                    (t.get_leafs().iter().map(|r| r.to_string()).collect::<Vec<_>>(), t.get_winner().map(|r| r.to_string()))
+                })) {
+                    let dump: Vec<(String, Option<String>, bool)> = t
+                        .get_revisions()
+                        .iter()
+                        .map(|(r, e)| (r.to_string(), e.get_parent().as_ref().map(|p| p.to_string()), e.is_staging()))
+                        .collect();
+                    let (el, ew) = crate::sim::independent_leafs(&dump);
+                    let mut ls = leafs.clone();
+                    ls.sort();
+                    let mut els = el.clone();
+                    els.sort();
+                    if ls != els {
+                        fails.push(("C05".into(), format!("live leaves {:?} differ from the rule {:?}", leafs, el)));
+                    }
+                    if winner != ew {
+                        fails.push(("C05".into(), format!("winner {:?} differs from the rule {:?}", winner, ew)));
+                    }
                 }
             }
         }
@@ -585,6 +815,26 @@ pub fn oracle(req: &Value) -> Vec<(String, String)> {
                 }
             } else {
                 fails.push(("C04".into(), "flatten/unflatten panicked on a well-formed document".into()));
+            }
+        }
+        "kv" => {
+            let ops = a[2].as_array().unwrap();
+            let got = kv_run(a[1].as_str().unwrap(), ops);
+            let want = kv_spec(ops);
+            for (i, (g, w)) in got.iter().zip(want.iter()).enumerate() {
+                if g != w {
+                    fails.push(("C17".into(), format!("backend {} violates the write-once contract at operation {} {}: got {} expected {}", a[1], i, ops[i], g, w)));
+                    break;
+                }
+            }
+        }
+        "rev.obj" => {
+            if let Ok(d) = digest_object(a[1].as_object().unwrap()) {
+                let r = Revision::new(1, d, None);
+                match parse_rev(&r.to_string()) {
+                    Ok(r2) if r2 == r => {}
+                    _ => fails.push(("C19".into(), format!("creation revision {} of an object does not parse back to itself", r))),
+                }
             }
         }
         "scan" => {
